@@ -186,3 +186,57 @@ Proof. vm_compute. repeat split; reflexivity. Qed.
     participant's buffer is flushed right after each of its steps is an SC run *)
 Lemma view_nil m : view m [] = m.
 Proof. reflexivity. Qed.
+
+(** * The SC model is the TSO model with eager flushing
+
+    From a state whose buffers are empty, a program step of the TSO machine followed by
+    draining the stepping participant's buffer is exactly the SC step (same program, same
+    stores): the SC behaviours are among the TSO behaviours, for every fence table. *)
+Definition drained (s : tstate) : Prop :=
+  obuf s = [] /\ omark s = false /\ Forall (fun b => b = []) (tbufs s) /\ Forall (fun m => m = false) (tmarks s).
+
+Definition with_mem (c : state) (m : mem) : state :=
+  mkState m (qsize c) (own c) (thv c) (pushed c) (returned c) (aborted c).
+
+Lemma Forall_nth {A} (P : A -> Prop) (l : list A) i x : Forall P l -> nth_error l i = Some x -> P x.
+Proof. intros H E. rewrite Forall_forall in H. apply H. eapply nth_error_In; eauto. Qed.
+
+Theorem tso_owner_step_sc t s s1 e :
+  drained s -> tso_step t s (O, Do e) = Some s1 ->
+  step (sc s) (O, e) = Some (with_mem (sc s1) (apply_wrs (mm (sc s1)) (obuf s1))) /\ tbufs s1 = tbufs s.
+Proof.
+  intros (Hb & Hm & _ & _) E. unfold tso_step in E. unfold step.
+  destruct (aborted (sc s)) eqn:Ea; [discriminate|].
+  destruct e.
+  - unfold step in E. rewrite Ea in E. destruct (own (sc s)); try discriminate; inversion E; subst; clear E;
+      cbn [sc obuf tbufs]; rewrite Hb; cbn; auto.
+  - discriminate.
+  - rewrite Hb, Hm in E. cbn [isnil negb andb view apply_wrs fold_left] in E. rewrite andb_false_r in E.
+    destruct (owner_tick (mm (sc s)) (qsize (sc s)) (own (sc s))) as [[[ws pc'] g]|]; [|discriminate].
+    inversion E; subst; clear E. cbn [sc obuf tbufs mm]. split; auto.
+    destruct (owner_rmw (own (sc s))); cbn [with_mem mm qsize own thv pushed returned aborted app apply_wrs fold_left];
+      reflexivity.
+  - unfold step in E. rewrite Ea in E. destruct (own (sc s)); try discriminate; inversion E; subst; clear E;
+      cbn [sc obuf tbufs]; rewrite Hb; cbn; auto.
+Qed.
+
+Theorem tso_thief_tick_sc t s s1 i :
+  drained s -> tso_step t s (S i, Do Tick) = Some s1 ->
+  exists buf1, nth_error (tbufs s1) i = Some buf1 /\
+  step (sc s) (S i, Tick) = Some (with_mem (sc s1) (apply_wrs (mm (sc s1)) buf1)) /\ obuf s1 = obuf s.
+Proof.
+  intros (_ & _ & Hb & Hm) E. unfold tso_step in E. unfold step.
+  destruct (aborted (sc s)) eqn:Ea; [discriminate|].
+  destruct (nth_error (thv (sc s)) i) as [pc|] eqn:Ei; [|discriminate].
+  destruct (nth_error (tbufs s) i) as [buf|] eqn:Eb; [|discriminate].
+  destruct (nth_error (tmarks s) i) as [mark|] eqn:Em; [|discriminate].
+  pose proof (Forall_nth _ _ _ _ Hb Eb) as ->. pose proof (Forall_nth _ _ _ _ Hm Em) as ->.
+  cbn [isnil negb andb view apply_wrs fold_left] in E. rewrite andb_false_r in E.
+  destruct (thief_tick (mm (sc s)) pc) as [[[ws pc'] g]|]; [|discriminate].
+  inversion E; subst; clear E. cbn [sc obuf tbufs mm].
+  assert (Hn : forall x, nth_error (set_nthA (tbufs s) i x) i = Some x).
+  { clear - Eb. revert i Eb. induction (tbufs s) as [|h l IH]; intros [|i] Eb x; cbn in *; try discriminate; auto. }
+  eexists. split; [apply Hn|]. split; auto.
+  destruct (thief_rmw pc); cbn [with_mem mm qsize own thv pushed returned aborted app apply_wrs fold_left];
+    reflexivity.
+Qed.
